@@ -11,7 +11,7 @@ PROP = {
     "rule": HIST_RULE + " Emphasis C05: expiry heavy: cutoffs on both sides of (never equal to) recorded clock values, dumps and AnnouncePeers right after a pass.",
     "tags": HIST_TAGS, "reasons": HIST_REASONS, "assumptions": HIST_ASSUMPTIONS,
     "trivial_tags": [], "min_tags": 4,
-    "explanation": "Coq theorems: expiry with cutoff T keeps exactly the memberships announced after T (expiry_exact), emptied swarms disappear, a re-announce stores the current clock, the memory store's pass equals its per-swarm steps in any order and refines the specification's expiry inside any history; Redis sequential expiry refines it too (Proofs/RedisP.v). Tied to collectGarbage of both stores through overlay shims on generated histories with membership dumps (incl. times) after passes.",
+    "explanation": "periodic_passes_exact (the stores' own loop: any number of passes with cutoff now - lifetime leave exactly what was announced after the latest pass time minus the lifetime; exercised by LIVE histories in which the stores' own goroutines do the expiry and the reporting). Coq theorems: expiry with cutoff T keeps exactly the memberships announced after T (expiry_exact), emptied swarms disappear, a re-announce stores the current clock, the memory store's pass equals its per-swarm steps in any order and refines the specification's expiry inside any history; Redis sequential expiry refines it too (Proofs/RedisP.v). Tied to collectGarbage of both stores through overlay shims on generated histories with membership dumps (incl. times) after passes.",
 }
 
 CLAIM = {
